@@ -13,6 +13,7 @@ def history(rng, net, n, tos_pool=TOS_POOL, p_rand_tos=0.1, gaps=None):
     """Frames per the property's quantifier; commands respect the domain restriction."""
     mm = MapperModel()
     out = []
+    last_cmd_seq = [0]
     stations = net.mappers + net.strangers[:2]
     bridge_of = dict(zip(net.mappers, net.bridges))
     for _ in range(n):
@@ -25,8 +26,12 @@ def history(rng, net, n, tos_pool=TOS_POOL, p_rand_tos=0.1, gaps=None):
                             [rng.choice(net.strangers + [net.own]) for _ in range(rng.choice([0, 1, 3]))],
                             tos=tos, eth_src=eth)
         elif r < 0.44:
-            fr = W.reset(src, tos=tos, eth_src=eth) if rng.random() < 0.7 else \
-                W.reset(src, tos=tos, eth_src=eth, real_dst=net.own, eth_dst=net.own)
+            # a Reset's sequence-number field is just a field: zero, anything, or the number the mapper's last command carried
+            if mm.state == MapperModel.ACTIVE and rng.random() < 0.5:
+                src, eth = mm.mapper, mm.apparent
+            rs = rng.choice([0, 0, last_cmd_seq[0], last_cmd_seq[0], rng.randint(1, 0xFFFF)])
+            fr = W.reset(src, tos=tos, eth_src=eth, seq=rs) if rng.random() < 0.7 else \
+                W.reset(src, tos=tos, eth_src=eth, real_dst=net.own, eth_dst=net.own, seq=rs)
         elif r < 0.52:
             fr = G.f_hello(rng, net, tos=tos)
         elif r < 0.62:
@@ -45,6 +50,7 @@ def history(rng, net, n, tos_pool=TOS_POOL, p_rand_tos=0.1, gaps=None):
                     # a command may open the session while none is active (inside the domain); not always
                     op = W.OP_CHARGE
             seq = rng.randint(1, 0xFFFF)
+            last_cmd_seq[0] = seq
             if op == W.OP_EMIT:
                 fr = W.emit(net.own, src, seq, [(rng.randint(0, 1), 0, G.rand_mac(rng), G.rand_mac(rng))
                                                 for _ in range(rng.randint(1, 3))], tos=tos, eth_src=eth)
